@@ -47,6 +47,8 @@ type run struct {
 	*walletsim.Scenario
 	g            *evid.Group
 	chainPending bool
+	// rescanRefused: the backend refused a rescan request of the running wallet
+	rescanRefused bool
 }
 
 func (r *run) snapshot() string {
@@ -463,6 +465,13 @@ func (r *run) resync(t *rapid.T) {
 	s.F.Quiesce()
 	pending := r.unconfirmed()
 	how := rapid.SampledFrom([]string{"restart", "restart", "reconnect", "rescan"}).Draw(t, "resyncHow")
+	if r.rescanRefused {
+		// a rescan request the backend refused leaves this wallet's rescan
+		// manager waiting for its end for good (observation, DESIGN section 6):
+		// every later rescan of the same Wallet value would queue behind it, so
+		// only a restart resynchronises from here on
+		how = "restart"
+	}
 	mineFirst := rapid.IntRange(0, 3).Draw(t, "mineWhileDown") == 0
 	if how == "restart" {
 		s.F.Stop()
@@ -489,6 +498,7 @@ func (r *run) resync(t *rapid.T) {
 	}
 	if how == "restart" {
 		s.F.Open()
+		r.rescanRefused = false
 	}
 	base := len(s.F.Client.CallsOf("SendRawTransaction"))
 	s.F.Client.SendAnswer = func(tx *wire.MsgTx) error {
@@ -516,6 +526,26 @@ func (r *run) resync(t *rapid.T) {
 		// the RPC connection came back: the wallet is told so and synchronises again
 		s.F.Connect()
 	case "rescan":
+		// a second rescan job may be handed in while the first is in flight (as an
+		// address import does); the backend may refuse that second request. The
+		// first rescan is a complete resynchronisation either way.
+		if rapid.Bool().Draw(t, "jobQueuedBehindRescan") {
+			refuse := rapid.Bool().Draw(t, "backendRefusesQueuedRescan")
+			addr := s.Book.List[rapid.IntRange(0, len(s.Book.List)-1).Draw(t, "queuedJobAddr")].Addr
+			w, cl := s.F.W, s.F.Client
+			cl.DuringRescan = func() {
+				w.SubmitRescan(&wallet.RescanJob{Addrs: []btcutil.Address{addr}, BlockStamp: w.Manager.SyncedTo()})
+				if refuse {
+					cl.FailNext("Rescan")
+				}
+			}
+			r.rescanRefused = refuse
+			defer cl.ClearFail("Rescan")
+			s.C.Class("rescan-job-queued-behind-resync")
+			if refuse {
+				s.C.Class("queued-rescan-refused-by-backend")
+			}
+		}
 		if err := s.F.W.Rescan(nil, nil); err != nil {
 			s.F.Violation("Wallet.Rescan failed: %v", err)
 		}
